@@ -995,7 +995,7 @@ def check_annulus(res, spec, includes=K.INCLUDES):
         res.axis('annulus_include', str(inc))
         flag = G.included(s)
         try:
-            reg = G.build(s)
+            reg = G.build_routed(s)     # by hash: fresh | parameters re-assigned after use | modified in place
         except Exception as exc:          # noqa: BLE001
             cx.bad('build_failed', f'could not construct the annulus: {type(exc).__name__}: {exc}')
             continue
